@@ -504,6 +504,15 @@ var propC19 = &Prop[CLICase]{
 					coms[i] = hex.EncodeToString(b)
 				}
 			}
+			if enc != "utf8" {
+				// a file is in one encoding: Shift_JIS (or raw) comments go with an ASCII-only program text
+				src = strings.Map(func(r rune) rune {
+					if r > 0x7e {
+						return 'x'
+					}
+					return r
+				}, src)
+			}
 			cc := CLICase{Kind: "comment", Src: src, Comments: coms, Enc: enc}
 			if rapid.IntRange(0, 3).Draw(t, "big") == 0 {
 				cc.Preamble = rapid.SampledFrom([]int{0, 1100, 4200, 66000}).Draw(t, "preamble")
